@@ -44,6 +44,8 @@ fn pair_params_and_args(mem: &mut Memory, nf: &NormalFunction, nf_name: Option<S
         }
         else {
             let error_details = vec![("expected", fit_to_number(mem, i + 1)), ("actual", fit_to_number(mem, args.len()))];
+            #[cfg(picilisp_verif)]
+            verif_note_evaluator_error();
             let error = make_error(mem, "wrong-number-of-arguments", &source, &error_details);
             return Err(error);
         };
@@ -60,6 +62,8 @@ fn pair_params_and_args(mem: &mut Memory, nf: &NormalFunction, nf_name: Option<S
     }
     else if i < args.len() {
         let error_details = vec![("expected", fit_to_number(mem, i)), ("actual", fit_to_number(mem, args.len()))];
+        #[cfg(picilisp_verif)]
+        verif_note_evaluator_error();
         let error = make_error(mem, "wrong-number-of-arguments", &source, &error_details);
         return Err(error);
     }
@@ -303,6 +307,8 @@ fn eval_internal(mem: &mut Memory, mut expression: GcRef, mut env: GcRef, mut en
                         // first element of `expression` doesn't evaluate to a function
 
                         let error_details = vec![("symbol", list_elems[0].clone())];
+                        #[cfg(picilisp_verif)]
+                        verif_note_evaluator_error();
                         let error = make_error(mem, "eval-bad-operator", EVAL.name, &error_details);
                         return Err(error); 
                     }
@@ -349,6 +355,8 @@ fn eval_internal(mem: &mut Memory, mut expression: GcRef, mut env: GcRef, mut en
                         },
                         Err(ModulError::GlobalNonExistentOrPrivate) => {
                             let error_details = vec![("symbol", expression.clone())];
+                            #[cfg(picilisp_verif)]
+                            verif_note_evaluator_error();
                             let error = make_error(mem, "unbound-symbol", EVAL.name, &error_details);
                             return Err(error);
                         },
